@@ -59,6 +59,112 @@ def hex_shrinks(case):
     return out + int_shrinks(case)
 
 
+# ---- C16 / engine mw -------------------------------------------------------------------------------
+MW_ARITY = {"pass": 2, "tag": 2, "short": 3, "fail": 2, "twice": 2, "issue": 4, "redirect": 2}
+
+
+def mw_parse(case):
+    """case line -> (head tokens, [client middleware], [request middleware], [rows], [ops]) (each a list of token lists)"""
+    t = case.split(" ")
+    head, i = t[:5], 5
+    stacks = []
+    for section in ("cmw", "mw"):
+        assert t[i] == section
+        n, i = int(t[i + 1]), i + 2
+        mws = []
+        for _ in range(n):
+            a = MW_ARITY[t[i]]
+            mws.append(t[i:i + a])
+            i += a
+        stacks.append(mws)
+    assert t[i] == "srv"
+    n, i = int(t[i + 1]), i + 2
+    rows = []
+    for _ in range(n):
+        nl = int(t[i + 3])
+        rows.append(t[i:i + 4 + nl])
+        i += 4 + nl
+    assert t[i] == "ops"
+    n, i = int(t[i + 1]), i + 2
+    ops = []
+    for _ in range(n):
+        if t[i] == "P":
+            a = 4 if t[i + 2] == "abs" else 3
+        else:
+            a = 5 if t[i + 3] == "ok" else 4
+        ops.append(t[i:i + a])
+        i += a
+    assert i == len(t)
+    return head, stacks[0], stacks[1], rows, ops
+
+
+def mw_unparse(head, cmws, mws, rows, ops):
+    flat = lambda xs: [y for x in xs for y in x]
+    return " ".join(head + ["cmw", str(len(cmws))] + flat(cmws) + ["mw", str(len(mws))] + flat(mws)
+                    + ["srv", str(len(rows))] + flat(rows) + ["ops", str(len(ops))] + flat(ops))
+
+
+def mw_gen(tier, seed):
+    return [["gen", seed, 6000 if tier == "quick" else 400000]]
+
+
+def mw_shape(case, out):
+    # distinct = (api, method, kinds of the client stack, kinds of the request stack, #requests seen by the shell (capped),
+    #             #enter marks (capped), outcome class)
+    try:
+        head, cmws, mws, rows, ops = mw_parse(case)
+    except Exception:
+        return ("unparsed",)
+    o = out.split(" out ")[-1].split(" ")
+    return (head[0], head[1], tuple(m[0] for m in cmws), tuple(m[0] for m in mws), min(out.count(" R "), 8),
+            min(out.count(" E "), 8), " ".join(o[:2]) if o[0] != "ok" and o[0] != "raw" else o[0])
+
+
+def mw_nontrivial(case, out):
+    # non-trivial: at least one middleware is attached (the stacks can make a difference)
+    return " cmw 0 mw 0 " not in case
+
+
+def mw_shrinks(case):
+    try:
+        head, cmws, mws, rows, ops = mw_parse(case)
+    except Exception:
+        return []
+    out = []
+
+    def stack_variants(st):
+        res = []
+        for i in range(len(st)):
+            res.append(st[:i] + st[i + 1:])
+        for i, m in enumerate(st):
+            if m[0] == "redirect" and int(m[1]) > 0:
+                res.append(st[:i] + [["redirect", str(int(m[1]) - 1)]] + st[i + 1:])
+            if m[0] == "issue" and m[3] != "-":
+                res.append(st[:i] + [m[:3] + ["-"]] + st[i + 1:])
+        return res
+
+    for v in stack_variants(cmws):
+        out.append(mw_unparse(head, v, mws, rows, ops))
+    for v in stack_variants(mws):
+        out.append(mw_unparse(head, cmws, v, rows, ops))
+    for i in range(len(rows)):
+        out.append(mw_unparse(head, cmws, mws, rows[:i] + rows[i + 1:], ops))
+    for i in range(len(ops)):
+        out.append(mw_unparse(head, cmws, mws, rows, ops[:i] + ops[i + 1:]))
+    for i, r in enumerate(rows):
+        if r[2] != "-":
+            out.append(mw_unparse(head, cmws, mws, rows[:i] + [r[:2] + ["-"] + r[3:]] + rows[i + 1:], ops))
+        if int(r[3]) > 1:
+            out.append(mw_unparse(head, cmws, mws, rows[:i] + [r[:3] + [str(int(r[3]) - 1)] + r[5:]] + rows[i + 1:], ops))
+    if head[3] != "-":
+        out.append(mw_unparse(head[:3] + ["-"] + head[4:], cmws, mws, rows, ops))
+    if head[4] != "_":
+        out.append(mw_unparse(head[:4] + ["_"], cmws, mws, rows, ops))
+    if head[1] != "GET":
+        out.append(mw_unparse([head[0], "GET"] + head[2:], cmws, mws, rows, ops))
+    return [c for c in out if c != case]
+
+
 PROPS = {
     "C19": {
         "streams": [Stream("conv", "conv", "conv", conv_gen, nontrivial=conv_nontrivial,
@@ -108,9 +214,52 @@ PROPS["C17"] = {
     "assumptions": ["keys/prefixes/messages are valid UTF-8 (they are Rust Strings); the model treats them as opaque bytes"],
 }
 
+PROPS["C16"] = {
+    "streams": [Stream("mw", "mw", "mw", mw_gen, nontrivial=mw_nontrivial, shape=mw_shape, shrink=mw_shrinks)],
+    "rule": "cases = (API ∈ {capability .send(ev) 5/8, capability .send_async().await 2/8, command API 1/8}) × request (9 methods, "
+            "body on POST/PUT/PATCH and 1/6 of the others, 0-2 headers) × middleware stack (length 0-7, for the capability APIs split at a "
+            "random point into client middleware — installed through the cfg(crux_verif) hook Http::verif_with_client_middleware — and "
+            "per-request middleware; kinds pass, tag "
+            "(request-modifying), short-circuit with a canned response, short-circuit with an error, twice (next.run called twice), "
+            "issue (extra GET through the inner client, optionally itself with Redirect), the real Redirect::new(n) with n in 0..=5, "
+            "up to 3 Redirects per stack, at any position) × server table (0-9 rows: redirect chains from the request URL built from "
+            "absolute, relative (z, z/, ./, ../, ../.., ?q, #f, empty, /abs, //host scheme-relative …), unnormalised, non-http and "
+            "malformed Locations; loops back into the table; chains longer than the limit; 301/302/303/307/308 and 200/201/204/"
+            "300/304/4xx/5xx; missing and repeated Location headers; Location on non-redirect answers; io/timeout errors) × the "
+            "url::Url::parse / Url::join results for every (base, Location) a walk over the table can need, precomputed with the real "
+            "url crate and re-checked by `run`; a real Core<App> builds the request with the stack through the real builders, the "
+            "harness answers each HttpRequest effect from the table and logs marks and requests in one sequence; non-trivial = at "
+            "least one middleware attached; distinct = distinct (api, method, kinds of the client stack, kinds of the request stack, "
+            "#requests at the shell, #enter marks, outcome class)",
+    "level_text": "Proof (20 theorems over the model M.Mw of Next::run, Client::send, Redirect::handle and the three sending APIs; all "
+                  "quantify over every stack, every server function Url -> answer, arbitrary parse/join, every attempt limit and "
+                  "request): mw_order, mw_order_passThrough (enter c1..cn, enter r1..rm, SHELL, exit rm..c1), endpoint_once, "
+                  "endpoint_once_passThrough, endpoint_count (shell reached mult(stack) times for stacks of non-sending middleware), "
+                  "endpoint_zero_below_short/_fail, redirect_bounded (probes <= attempts, all body-less copies), redirect_stops, "
+                  "redirect_final (+_url), C16_fixed (soundness against the oracle S.Mw.ok for the repaired redirect loop). FULL "
+                  "statements refuted from concrete witnesses: redirect_relative false (redirect_relative_false; key "
+                  "redirect-relative-base) with redirect_relative_partial (no relative hop after a relative hop) and "
+                  "redirect_relative_fixed (full, for the one-line repair); mw_all_apis (mw_all_apis_false; key "
+                  "command-api-ignores-middleware) with mw_all_apis_partial; C16_full (C16_full_false, C16_full_false_redirect) "
+                  "with C16_partial for the code as it is. Driver/Mw.lean runs the `fixed = false` variant against the code "
+                  "(constant repoHasRedirectFix).",
+    "level_note": "Trusted: Lean kernel + 3 standard axioms; hand model M.Mw (checked against the real crux_http through a real Core on "
+                  "6k (quick) / 400k (thorough) generated cases per run); url::Url::parse/join are opaque (their results for the case "
+                  "are supplied by the generator from the real crate and verified again by the harness); http-types Request::clone "
+                  "(drops the body) and header map modelled as a list; the middleware kinds are those of harness/src/bin/mw.rs. "
+                  "Client middleware can only be installed through the cfg(crux_verif) hook Http::verif_with_client_middleware "
+                  "(Client::with is pub(crate) dead code in the public API); the command API has no client at all.",
+    "assumptions": [
+        "the shell answers as a function of the request URL (stateless server) with a status of the http-types table",
+        "header names/values and Location values are ASCII (non-ASCII response headers panic: C15)",
+        "middleware behave as one of the seven kinds of the harness (arbitrary user middleware is outside any model)",
+    ],
+}
+
 # properties not claimed yet, with the reason shown in MANIFEST.not_applicable
 NOT_YET = {}
 ENGINE_TEXT = {
+    "mw": "real crux_http middleware stacks + Redirect through a real Core<App>, harness as shell (Rust) vs M.Mw (Lean), oracle S.Mw",
     "kv": "real crux_kv calls (capability + command API; Core and bincode Bridge hosts) vs M.Kv (Lean), oracle S.Kv",
     "conv": "differential driver for crux_time::protocol conversions (Rust) vs M.Conv (Lean), oracle S.Conv",
 }
